@@ -1,6 +1,8 @@
 package c19
 
 import (
+	"os"
+	"errors"
 	"fmt"
 	"math/big"
 	"math/rand"
@@ -59,7 +61,14 @@ type recDB struct {
 	mu          sync.Mutex
 	log         []kvw
 	batchWrites int
+	// fault injection: every batch Write whose ordinal (batchWrites after increment) is >= failFrom
+	// (when failFrom > 0) fails like a full disk after having written half of its entries
+	failFrom   int
+	failedOnce bool
+	failStack  string
 }
+
+var errInjectedWrite = errors.New("injected: no space left on device")
 
 func (d *recDB) Put(k, v []byte) error {
 	if len(k) == 32 {
@@ -90,7 +99,19 @@ func (b *recBatch) Reset()                { b.ks, b.vs, b.size = nil, nil, 0 }
 func (b *recBatch) Write() error {
 	b.db.mu.Lock()
 	b.db.batchWrites++
+	fail := b.db.failFrom > 0 && b.db.batchWrites >= b.db.failFrom
+	if fail {
+		b.db.failedOnce = true
+		buf := make([]byte, 4096)
+		b.db.failStack = string(buf[:runtime.Stack(buf, false)])
+	}
 	b.db.mu.Unlock()
+	if fail {
+		for i := 0; i < len(b.ks)/2; i++ {
+			b.db.Put(b.ks[i], b.vs[i])
+		}
+		return errInjectedWrite
+	}
 	for i := range b.ks {
 		if err := b.db.Put(b.ks[i], b.vs[i]); err != nil {
 			return err
@@ -506,7 +527,35 @@ func runDLCase(c *kit.Ctx, id string, kind string, big bool) {
 		logStart := len(dst.log)
 		bw0 := dst.batchWrites
 		initial := dbKeySet(dst.MemDatabase)
+		// fault: the destination database starts failing its batch writes (full disk) - from the
+		// first flush of this sync on, or from a later one (the final flush included)
+		dst.mu.Lock()
+		dst.failedOnce = false
+		dst.mu.Unlock()
+		if r.Intn(4) == 0 {
+			dst.mu.Lock()
+			dst.failFrom = dst.batchWrites + 1 + r.Intn(2)
+			dst.mu.Unlock()
+			if r.Intn(2) == 0 {
+				// answer everything, so that the sync runs to its end and only the flush fails
+				profiles = []peerProfile{honestProfile("h[honest, destination disk full]")}
+				cancelAfter = 0
+			}
+			c.Count("dl_syncs_with_failing_destination", 1)
+		}
 		out, err := runDownload(c, r, w, t, jb.kind, dst, profiles, cancelAfter, joinAfter)
+		dst.mu.Lock()
+		if dst.failedOnce {
+			c.Count("dl_destination_write_failures_hit", 1)
+			if err == nil {
+				c.Count("dl_sync_nil_despite_write_failure", 1)
+				if os.Getenv("VERIF_C19_DEBUG") != "" {
+					c.Note(fmt.Sprintf("nil despite write failure: %s kind=%v state=%v out=%+v failFrom=%d writes=%d bw0=%d profiles=%+v\n%s", t.Name, jb.kind, t.State, out, dst.failFrom, dst.batchWrites, bw0, profiles, dst.failStack))
+				}
+			}
+		}
+		dst.failFrom = 0
+		dst.mu.Unlock()
 		outcomes = append(outcomes, out)
 		c.Count("dl_syncs", 1)
 		if out.TimedOut {
